@@ -314,6 +314,7 @@ def run_property(pid: str, tier: str, seed: int, write_lock=False, verbose=False
     for g in ground[:5]:
         samples.append({"id": g.oid, "backend": g.backend, "ok": g.ok, "detail": g.detail[:200]})
     inlined = sorted(set().union(*[r.inlined for r in results])) if results else []
+    auto_inl = sorted(set().union(*[getattr(r, "auto_inlined", set()) for r in results])) if results else []
     used = sorted(set().union(*[r.used_contracts for r in results])) if results else []
     trusted_used = [u for u in used if u in REG.contracts and REG.contracts[u].trusted]
     assumptions = list(P.get("assumptions", [])) + list(REG.assumptions)
@@ -322,6 +323,8 @@ def run_property(pid: str, tier: str, seed: int, write_lock=False, verbose=False
                        and u not in fuc]
     assumptions += [f"contract used at call sites as an abstraction, not verified in this check: {u}" +
                     (f" ({REG.contracts[u].note})" if REG.contracts[u].note else "") for u in unverified_used]
+    assumptions += [f"function without a contract, its real body executed at the call sites (not verified on its own): {u}"
+                    for u in auto_inl]
     casts = sorted(getattr(ex, "assumed_casts", set()))
     assumptions += [f"unchecked cast: {c_}" for c_ in casts]
     ev = {
@@ -338,6 +341,7 @@ def run_property(pid: str, tier: str, seed: int, write_lock=False, verbose=False
             "functions_under_contract": fuc,
             "verified_because_called_by_those": closure,
             "inlined_accessors": inlined,
+            "auto_inlined": auto_inl,
             "contracts_used_at_call_sites": used,
             "by_backend": by_backend,
             "solver_seconds": round(solver_seconds, 2),
